@@ -46,6 +46,8 @@ type Net struct {
 	Log     []*Packet
 	pending sync.WaitGroup
 	pub     *pubVDR
+	// syncFn, when set, receives every packet inside the sender's Send call (synchronous delivery mode)
+	syncFn func(*Packet)
 }
 
 // NewNet makes an empty network.
@@ -104,6 +106,14 @@ func (n *Net) Submit(from, to string, data []byte, keys []string) *Packet {
 	p := &Packet{Seq: n.seq, From: from, To: to, Data: append([]byte{}, data...), DestKeys: append([]string{}, keys...)}
 	n.Log = append(n.Log, p)
 	hold := n.hold
+	syncFn := n.syncFn
+
+	if syncFn != nil {
+		n.mu.Unlock()
+		syncFn(p)
+
+		return p
+	}
 
 	if hold {
 		n.queue = append(n.queue, p)
